@@ -33,6 +33,11 @@
 #define A01(c, m) do { } while (0)
 #define A02(c, m) V_ASSERT(c, "C02: " m)
 #endif
+#if PROP == 1
+#define AT(c, m) V_ASSERT(c, "C01: " m)      /* tiling obligations: part of both statements */
+#else
+#define AT(c, m) V_ASSERT(c, "C02: events tile the stream: " m)
+#endif
 #define AENV(c, m) V_ASSERT(c, "env: " m)
 
 #ifndef MAXSHORT
@@ -97,11 +102,11 @@ static void *v_memcpy(void *dst, const void *src, size_t n)
 #endif
 	if (in_evbuf && g_phase != 3) {
 		uint64_t off = (uint64_t) (d - g_evbuf);
-		A01(off == rthread.evlen, "events are appended exactly at the end of the buffer (nothing below is overwritten)");
-		A01(off + n <= (uint64_t) OVNI_MAX_EV_BUF, "append stays inside the event buffer");
+		AT(off == rthread.evlen, "events are appended exactly at the end of the buffer (nothing below is overwritten)");
+		AT(off + n <= (uint64_t) OVNI_MAX_EV_BUF, "append stays inside the event buffer");
 		g_nseg++;
 		if (g_phase == 0) {
-			A01(n == g_exp_n, "the event is copied with its exact size");
+			AT(n == g_exp_n, "the event is copied with its exact size");
 			const uint8_t *sb = (OP == 3) ? (const uint8_t *) src : (const uint8_t *) g_user_ev;
 			if (OP == 3) /* mark events carry the first clock read of the call */
 				for (int i = 0; i < 8; i++) g_exp[4 + i] = (uint8_t) (g_first_clock >> (8 * i));
@@ -150,8 +155,8 @@ static ssize_t v_write(int fd, const void *buf, size_t n)
 	AENV(g_nwr < NW, "harness bound: write calls per call");
 	if (!g_in_flush) { g_in_flush = 1; g_flush_start_disk = g_disk; g_flush_len = rthread.evlen; g_nflush++; }
 	/* in-order, gap-free: the k-th write starts where the previous one stopped */
-	A01((const uint8_t *) buf == g_evbuf + (g_disk - g_flush_start_disk), "flush writes the buffer to disk in order without gaps");
-	A01((g_disk - g_flush_start_disk) + n == g_flush_len, "flush offers exactly the unwritten rest of the buffer");
+	AT((const uint8_t *) buf == g_evbuf + (g_disk - g_flush_start_disk), "flush writes the buffer to disk in order without gaps");
+	AT((g_disk - g_flush_start_disk) + n == g_flush_len, "flush offers exactly the unwritten rest of the buffer");
 	size_t r = n;
 	/* at most 2 short writes per flush (bound; a third write completes the buffer) */
 	if (n > 0 && g_nshort < MAXSHORT && IN.wr_short[g_nwr] && IN.wr[g_nwr] >= 1 && IN.wr[g_nwr] < n) {
@@ -275,12 +280,12 @@ harness(void)
 
 	/* ---- post-state: Inv again, and the decoded appended stream ---- */
 	A01(rthread.evlen < (size_t) OVNI_MAX_EV_BUF, "Inv: buffer fill level stays below capacity");
-	A01(!g_in_flush, "every started flush wrote the complete buffer");
+	AT(!g_in_flush, "every started flush wrote the complete buffer");
 	uint64_t L1 = g_disk + rthread.evlen;
 	A01(g_phase == 2, "the user event (and its jumbo data) was appended");
 	A02(!g_open, "every OF[ is closed within the same call");
 	A02(g_last <= g_now, "Inv: stream clocks never exceed the current time");
-	A01(L1 == L0 + g_appended, "the logical stream grows by exactly the appended events (nothing lost, nothing duplicated)");
+	AT(L1 == L0 + g_appended, "the logical stream grows by exactly the appended events (nothing lost, nothing duplicated)");
 #if OP != 2
 	A01(g_appended == user_size + 24 * (uint64_t) g_npairs, "appended bytes = user event + complete marker pairs");
 	A02(g_nflush == 0 || g_npairs >= 1, "an automatic flush is reported by a marker pair");
